@@ -750,7 +750,7 @@ def run(ctx):
         "error rates: per-utterance figures and totals with a zero denominator are not defined and not run; for "
         "unequal costs any edit count of a minimum-cost alignment is accepted (C02)",
         "TextGrid round trips use tiers that are all intervals of positive length or all points, precision >= 3",
-        "subset: --only, --rand-* are not modelled; length criteria are run without extra DataLoader workers",
+        "subset: --only, --rand-* are not modelled; length criteria are run with extra workers only for a few cases with tied lengths (6 quick / 60 thorough)",
         "commands that read through a DataLoader (token dir -> trn / ctm) get real worker processes only in the "
         "thorough tier; the error-rate command has no worker option",
         "FakePool runs initializers and tasks in-process (module globals of command_line are shared)",
@@ -777,6 +777,7 @@ def run(ctx):
 
     phases = {}
     swept = 0
+    len_budget = [6 if ctx.quick else 60]
     for fam in FAMS:
         t0 = time.time()
         big = max(len(r["data"]) for r in recs[fam])
@@ -793,7 +794,23 @@ def run(ctx):
                 continue
             n = n_items(rec)
             if fam == "sub" and rec["crit"]["kind"].startswith(("shortest", "longest")):
-                continue  # (these also start DataLoader workers)
+                # these also start real DataLoader workers (slow): only a few cases, those with a tie in length (the cut
+                # may fall inside it), under the behaviour whose completion order is the most out of order
+                lens_ = [T for T, h in zip(rec["data"], rec["has"]) if h["feat"]]
+                if len(set(lens_)) < len(lens_) and 2 <= len(rec["data"]) <= maxn and len_budget[0] > 0:
+                    len_budget[0] -= 1
+                    Wl = 2
+                    lst = schedules[(len(rec["data"]), min(Wl, len(rec["data"])), "unordered")]
+
+                    def disorder(ev):
+                        fo = [e[1] for e in ev if e[0] == "deliver"]
+                        return sum(1 for a in range(len(fo)) for b in range(a + 1, len(fo)) if fo[a] > fo[b])
+
+                    pick = max(range(len(lst)), key=lambda i: disorder(lst[i]))
+                    check_worker_free(ctx, rec, idx, ("fake", Wl, 1, pick), schedules, base)
+                    ctx.traces += 1
+                    ctx.evaluations += 1
+                continue
             if n == 0:
                 continue
             W, chunk = 1 + (idx // 2) % 3, 1 + (idx // 6) % 2
